@@ -49,7 +49,33 @@ func genStringRune(t *rapid.T) rune {
 }
 
 func genInput(t *rapid.T) Input {
-	switch rapid.IntRange(0, 10).Draw(t, "kind") {
+	switch rapid.IntRange(0, 11).Draw(t, "kind") {
+	case 11:
+		// statements the grammar accepts and an action rejects: several else blocks, several defaults
+		blk := func() string {
+			return rapid.SampledFrom([]string{"{ }", "{ x }", "{\n x = 1\n}", "{ x\n y }", "{\n}"}).Draw(t, "blk")
+		}
+		if rapid.Bool().Draw(t, "ifform") {
+			s := "if a " + blk()
+			for n := rapid.IntRange(1, 3).Draw(t, "nelse"); n > 0; n-- {
+				if rapid.IntRange(0, 3).Draw(t, "elseif") == 0 {
+					s += " else if b " + blk()
+				} else {
+					s += " else " + blk()
+				}
+			}
+			return Input{"several-else", rapid.SampledFrom([]string{"", "y = 2\n", "\n\n"}).Draw(t, "pre") + s + rapid.SampledFrom([]string{"", "\nz = 3", "\n"}).Draw(t, "post")}
+		}
+		s := "switch a {\n"
+		for n := rapid.IntRange(1, 4).Draw(t, "nclause"); n > 0; n-- {
+			body := rapid.SampledFrom([]string{"", " x", "\n x = 1", " x\n y"}).Draw(t, "cbody")
+			if rapid.Bool().Draw(t, "isdefault") {
+				s += "default:" + body + "\n"
+			} else {
+				s += "case 1:" + body + "\n"
+			}
+		}
+		return Input{"several-default", s + "}" + rapid.SampledFrom([]string{"", "\nz = 3"}).Draw(t, "post")}
 	case 10:
 		// one string literal: quote, units (plain rune | backslash + rune), closing quote or not
 		q := rapid.SampledFrom([]string{"\"", "'", "`"}).Draw(t, "quote")
@@ -190,12 +216,39 @@ func normMsg(s string) string {
 	return s
 }
 
+// debugSwitch: every so often, between two parses (never during one), the host calls
+// parser.EnableDebug(0) - the default level - as an embedding program may. A call that does not
+// come back is remembered; the parses after it tell whether ParseSrc still terminates.
+var totalCalls, debugSwitchStuck int
+
+func debugSwitch() {
+	totalCalls++
+	if totalCalls%50 != 0 || debugSwitchStuck > 0 {
+		return
+	}
+	done := make(chan struct{})
+	go func() {
+		parser.EnableDebug(0)
+		close(done)
+	}()
+	select {
+	case <-done:
+	case <-time.After(3 * time.Second):
+		debugSwitchStuck++
+	}
+}
+
 func oracleTotal(c Input, o *h.Obs) *h.Fail {
 	o.Key = c.Src
 	o.Class("input_" + c.Kind)
+	debugSwitch()
 	r := parseBounded(c.Src)
 	if r.hung {
-		return h.Failf("C15|hang", "ParseSrc did not return within 20 s for input %q", c.Src)
+		note := ""
+		if debugSwitchStuck > 0 {
+			note = "\n(a call of parser.EnableDebug(0) made between two earlier parses has not returned either: the parses before it left shared state behind)"
+		}
+		return h.Failf("C15|hang", "ParseSrc did not return within 20 s for input %q%s", c.Src, note)
 	}
 	if r.panic != nil {
 		return h.Failf("C15|panic|"+normMsg(fmt.Sprint(r.panic)), "ParseSrc panicked: %v\ninput: %q", r.panic, c.Src)
@@ -364,6 +417,16 @@ type Pair struct {
 }
 
 func genValid(t *rapid.T, label string) string {
+	src := genValid0(t, label)
+	if rapid.IntRange(0, 7).Draw(t, label+"_head") == 0 {
+		// a first line that is a comment to the language but special to tools (interpreter line,
+		// byte order mark look-alikes, editor mode lines)
+		src = rapid.SampledFrom([]string{"#!/usr/bin/env anko", "#!anko -e", "#!", "# -*- mode: anko -*-", "//!", "#!\r"}).Draw(t, label+"_headline") + "\n" + src
+	}
+	return src
+}
+
+func genValid0(t *rapid.T, label string) string {
 	switch rapid.IntRange(0, 11).Draw(t, label) {
 	case 0:
 		return ""
